@@ -1,2 +1,91 @@
 //! verif::tag — guarded hooks (cfg rustybuzz_verif).
 #![allow(unused_imports)]
+
+use alloc::string::String;
+use alloc::vec::Vec;
+use core::str::FromStr;
+
+use crate::hb::common::TagExt;
+use crate::hb::{hb_tag_t, tag as tag_mod, tag_table, Language, Script};
+
+pub use crate::hb::ot_layout::LayoutTableExt;
+
+/// `tags_from_script_and_language` on an ISO 15924 script string and a BCP 47 language string
+/// (both go through the public `FromStr` constructors). Tags are returned as `u32`.
+pub fn tags(script: Option<&str>, language: Option<&str>) -> (Vec<u32>, Vec<u32>) {
+    let script = script.and_then(|s| Script::from_str(s).ok());
+    let language = language.and_then(|s| Language::from_str(s).ok());
+    let (s, l) = tag_mod::tags_from_script_and_language(script, language.as_ref());
+    (
+        s.iter().map(|t| t.as_u32()).collect(),
+        l.iter().map(|t| t.as_u32()).collect(),
+    )
+}
+
+/// The ISO 15924 tag the `Script` constructor resolves a string to (0 when rejected).
+pub fn script_tag(script: &str) -> u32 {
+    Script::from_str(script).map(|s| s.tag().as_u32()).unwrap_or(0)
+}
+
+/// The registry as compiled: (language, tag) in table order.
+pub fn registry() -> Vec<(&'static str, u32)> {
+    tag_table::OPEN_TYPE_LANGUAGES
+        .iter()
+        .map(|r| (r.language, r.tag.as_u32()))
+        .collect()
+}
+
+/// `lang_cmp` as -1 / 0 / 1.
+pub fn lang_cmp(s1: &str, s2: &str) -> i8 {
+    tag_mod::verif_lang_cmp(s1, s2) as i8
+}
+
+/// `tags_from_language` on an already constructed language (no prefix splitting).
+pub fn tags_from_language(language: &str) -> Option<Vec<u32>> {
+    let language = Language::from_str(language).ok()?;
+    Some(tag_mod::verif_tags_from_language(&language).iter().map(|t| t.as_u32()).collect())
+}
+
+/// `tags_from_complex_language`: `Some(tags)` when it claims the language.
+pub fn complex(language: &str) -> Option<Vec<u32>> {
+    let mut tags = smallvec::SmallVec::<[hb_tag_t; 3]>::new();
+    if tag_table::tags_from_complex_language(language, &mut tags) {
+        Some(tags.iter().map(|t| t.as_u32()).collect())
+    } else {
+        None
+    }
+}
+
+/// All known predefined scripts of `script::*` cannot be enumerated from outside; the harness
+/// passes ISO 15924 strings instead. This returns the language string after construction.
+pub fn language_string(language: &str) -> Option<String> {
+    Language::from_str(language).ok().map(|l| String::from(l.as_str()))
+}
+
+/// `select_script` followed by `select_script_language` and the required feature on a raw
+/// GSUB/GPOS table, as `hb_ot_map_builder_t::new` / `compile` do.
+/// Returns (found, script index, chosen tag, language index, required feature (index, tag)).
+pub fn select(
+    table: &ttf_parser::opentype_layout::LayoutTable,
+    script_tags: &[u32],
+    lang_tags: &[u32],
+) -> Option<(bool, u16, u32, Option<u16>, Option<(u16, u32)>)> {
+    let st: Vec<hb_tag_t> = script_tags.iter().map(|t| ttf_parser::Tag(*t)).collect();
+    let lt: Vec<hb_tag_t> = lang_tags.iter().map(|t| ttf_parser::Tag(*t)).collect();
+    let (found, idx, tag) = table.select_script(&st)?;
+    let lang = table.select_script_language(idx, &lt);
+    let req = table
+        .get_required_language_feature(idx, lang)
+        .map(|(i, t)| (i, t.as_u32()));
+    Some((found, idx, tag.as_u32(), lang, req))
+}
+
+/// `find_language_feature` on a raw table.
+pub fn find_feature(
+    table: &ttf_parser::opentype_layout::LayoutTable,
+    script_index: u16,
+    lang_index: Option<u16>,
+    feature_tag: u32,
+) -> Option<u16> {
+    table.find_language_feature(script_index, lang_index, ttf_parser::Tag(feature_tag))
+}
